@@ -256,6 +256,43 @@ fn run(ctx: &mut Ctx) {
                 let mut l = chunks.clone();
                 l[k] = dec(&r2);
                 fault(ctx, "non-final chunk resized", l, rng);
+                // boundary between chunk k and k+1 shifted by 1..3 bytes: the concatenation (and so the
+                // directly decoded packet) is unchanged, only the equal-size rule can reject this
+                for delta in [1i64, -1, 2, -3] {
+                    let (mut a, mut b2) = (raw[k].clone(), raw[k + 1].clone());
+                    if delta > 0 {
+                        let d = (delta as usize).min(b2.payload.len().saturating_sub(1));
+                        if d == 0 {
+                            continue;
+                        }
+                        let moved: Vec<u8> = b2.payload.drain(..d).collect();
+                        a.payload.extend(moved);
+                    } else {
+                        let d = ((-delta) as usize).min(a.payload.len().saturating_sub(1));
+                        if d == 0 {
+                            continue;
+                        }
+                        let at = a.payload.len() - d;
+                        let moved: Vec<u8> = a.payload.drain(at..).collect();
+                        let mut np = moved;
+                        np.extend(&b2.payload);
+                        b2.payload = np;
+                    }
+                    // still a violation of the equal-size rule? (chunk k or k+1 is non-final and now differs from the others)
+                    let sizes_ok = {
+                        let mut sz: Vec<usize> = raw.iter().map(|c| c.payload.len()).collect();
+                        sz[k] = a.payload.len();
+                        sz[k + 1] = b2.payload.len();
+                        sz[..nn - 1].iter().all(|x| *x == sz[0])
+                    };
+                    if sizes_ok {
+                        continue;
+                    }
+                    let mut l = chunks.clone();
+                    l[k] = dec(&a);
+                    l[k + 1] = dec(&b2);
+                    fault(ctx, if delta > 0 { "chunk boundary shifted: non-final chunk larger" } else { "chunk boundary shifted: non-final chunk smaller" }, l, rng);
+                }
             }
         }
     });
